@@ -99,7 +99,7 @@ def at_scale_case(ctx, g, rng):
     import curies
 
     api, S = ctx.api, probe.S
-    n = rng.choice([150, 400]) if ctx.tier == "thorough" else 90
+    n = rng.choice([150, 400]) if ctx.tier == "thorough" else rng.choice([90, 140, 270])
     recs = gen.large_records(rng, n)
     with probe.monitor_mode():
         c = api.Converter([gen.mk_record(api, r) for r in recs])
@@ -111,9 +111,27 @@ def at_scale_case(ctx, g, rng):
     if o[0] == "ret":
         r0 = some[0]
         call(o[1].add_prefix, r0.prefix, r0.uri_prefix, ["zzsyn"], ["http://zz.syn/"], merge=True)
-    call(curies.remap_curie_prefixes, c, {r.prefix: "new" + r.prefix for r in some})
-    call(curies.remap_uri_prefixes, c, {r.uri_prefix: "http://moved/" + r.prefix + "/" for r in some})
-    call(curies.rewire, c, {r.prefix: "http://rewired/" + r.prefix + "/" for r in some})
+    # every product is extended afterwards, by merges into records the derivation did not touch: the large input stays
+    # what it was (seed C10-W: above a number of records the copies are shallow, the synonym lists shared)
+    base = spec.snapshot(c)
+    chosen = {r.prefix for r in some}
+    untouched = [r for r in recs if r.prefix not in chosen][:3]
+    for name, od in (
+        ("remap_curie_prefixes", call(curies.remap_curie_prefixes, c, {r.prefix: "new" + r.prefix for r in some})),
+        ("remap_uri_prefixes", call(curies.remap_uri_prefixes, c, {r.uri_prefix: "http://moved/" + r.prefix + "/" for r in some})),
+        ("rewire", call(curies.rewire, c, {r.prefix: "http://rewired/" + r.prefix + "/" for r in some})),
+    ):
+        if od[0] != "ret":
+            continue
+        for k, r in enumerate(untouched):
+            call(od[1].add_prefix, r.prefix, r.uri_prefix, [f"zzleak{k}"], [f"http://zz.leak/{k}/"], merge=True)
+        probe.evaluated("input-unchanged-after-the-result-was-extended")
+        now = spec.snapshot(c)
+        if now != base:
+            bad = next((a, b) for a, b in zip(base, now) if a != b) if len(base) == len(now) else (len(base), len(now))
+            probe.violation(["C10"], "input-unchanged-after-the-result-was-extended", "later-change-of-the-result-shows-in-the-input",
+                            derivation=name, records_of_the_input=n, first_difference=repr(bad)[:600])
+            base = now
     call(curies.discover, [r.uri_prefix + str(i) for r in some for i in range(3)] + [f"http://d/{i}" for i in range(50)], converter=c)
     S.counters[f"wl:at-scale:n{n}"] += 1
     probe.note_key(f"at-scale:n{n}", True)
